@@ -1934,7 +1934,8 @@ func (d *Data) ScaleUpdating(scale uint8) bool {
 
 func (d *Data) AnyScaleUpdating() bool {
 	d.updateMu.RLock()
-	for scale := uint8(0); scale < d.MaxDownresLevel; scale++ {
+	// updates has an entry for every scale 0..MaxDownresLevel and the last one counts too.
+	for scale := uint8(0); scale <= d.MaxDownresLevel && int(scale) < len(d.updates); scale++ {
 		if d.updates[scale] > 0 {
 			d.updateMu.RUnlock()
 			return true
